@@ -1,6 +1,7 @@
 import Proofs.AlignSingleRun
 import Proofs.EditsInfer
 import Proofs.EditsSingleRun
+import Proofs.EditsSubhunk
 /-!
 C06 — within-line emphasis marks exactly what changed between paired lines.
 
@@ -309,6 +310,41 @@ example : (inferEdits cfg0 [lineAB] [⟨[gA, gS, ⟨['\u200b'], 0, false⟩, gB]
 -- identical lines: no emphasis (`identical_no_emph`)
 example : (annotatePair ⟨0, 1, 2, 3⟩ lineAB lineAB).map (fun a => (a.minus.map (·.tag), a.plus.map (·.tag)))
     = .ok ([0], [2]) := by rfl
+
+/-! ## subhunk formation (`handle_hunk_line`): which lines can be paired at all -/
+
+/-- Every emphasis pair `(m, p)` (input positions within the hunk) consists of a removed line `m`
+and an added line `p` of the same buffered block; `m` comes before `p` in the input, every line
+from `m` to `p` is a removed or an added line (no context line between them), and there is no
+added→removed boundary between them. The flush rules are the generated table
+`Generated.HunkFlush`; the buffer size is arbitrary. -/
+theorem pairs_only_within_subhunk (cfg : Cfg) (lineAt : Nat → Line) (tagM tagP : Tag) (bufSize : Nat)
+    (kinds : List Subhunk.Kind) (b : List Nat × List Nat) (hb : b ∈ Subhunk.subhunks bufSize kinds)
+    (ps : List (Nat × Nat)) (h : Subhunk.blockPairs cfg lineAt tagM tagP b = .ok ps)
+    (m p : Nat) (hmp : (m, p) ∈ ps) :
+    kinds[m]? = some .minus ∧ kinds[p]? = some .plus ∧ m < p ∧
+    (∀ k, m ≤ k → k ≤ p → kinds[k]? = some .minus ∨ kinds[k]? = some .plus) ∧
+    (∀ k, m ≤ k → k + 1 ≤ p → ¬ (kinds[k]? = some .plus ∧ kinds[k + 1]? = some .minus)) := by
+  have g := Subhunk.subhunks_good bufSize kinds b hb
+  obtain ⟨hm, hp⟩ := Subhunk.blockPairs_mem cfg lineAt tagM tagP b ps h m p hmp
+  obtain ⟨h1, h2, h3⟩ := g.between hm hp
+  exact ⟨g.mkind m hm, g.pkind p hp, h1, h2, h3⟩
+
+/-- An added line that precedes a removed line is never paired with it. -/
+theorem added_before_removed_never_paired (cfg : Cfg) (lineAt : Nat → Line) (tagM tagP : Tag) (bufSize : Nat)
+    (kinds : List Subhunk.Kind) (b : List Nat × List Nat) (hb : b ∈ Subhunk.subhunks bufSize kinds)
+    (ps : List (Nat × Nat)) (h : Subhunk.blockPairs cfg lineAt tagM tagP b = .ok ps)
+    (m p : Nat) (hpm : p < m) : (m, p) ∉ ps := by
+  intro hmp
+  have := (pairs_only_within_subhunk cfg lineAt tagM tagP bufSize kinds b hb ps h m p hmp).2.2.1
+  omega
+
+-- `+` directly followed by `-` (the second block starts at the removed line), alternating lines,
+-- a context line in between, and the overflow flush with buffer size 1
+example : Subhunk.subhunks 32 [.zero, .plus, .minus, .zero] = [([], [1]), ([2], [])] := by decide
+example : Subhunk.subhunks 32 [.minus, .plus, .minus, .plus] = [([0], [1]), ([2], [3])] := by decide
+example : Subhunk.subhunks 32 [.minus, .minus, .plus, .zero, .plus] = [([0, 1], [2]), ([], [4])] := by decide
+example : Subhunk.subhunks 1 [.minus, .minus, .minus, .plus] = [([0, 1], []), ([2], [3])] := by decide
 
 /-! ## make_lines_have_homolog -/
 
